@@ -51,6 +51,8 @@ def main(argv=None):
     ap.add_argument("--runs", type=int)
     ap.add_argument("--workers", type=int)
     ap.add_argument("--no-selftest", action="store_true")
+    ap.add_argument("--outside-region", action="store_true",
+                    help="calibration aid: do not restrict query shapes to the calibrated region")
     args = ap.parse_args(argv)
     if args.replay:
         return replay_file(args.replay)
